@@ -239,7 +239,7 @@ AItOpen(e) ==
        /\ its' = IF e.res.kind = "ok"
                  THEN Put(its, e.it, [seg |-> p.seg, list |-> p.list,
                                       actual |-> ListDocs(p.list) \ p.except, except |-> p.except,
-                                      last |-> -1,
+                                      idx |-> 0,
                                       flags |-> [freq |-> e.freq, norm |-> e.norm, locs |-> e.locs],
                                       reuse |-> reuse])
                  ELSE its
@@ -268,7 +268,8 @@ AItStep(e) ==
     ELSE
     LET it  == its[e.it]
         d   == IF e.ev = "it_next" THEN 0 ELSE e.d
-        r   == IterAdvance(it.list, it.actual, it.last, d)
+        j   == ScanFrom(it.list, it.actual, it.idx + 1, d)     \* = IterAdvance(list, actual, last, d), linear
+        r   == IF j = 0 THEN [kind |-> "end"] ELSE [kind |-> "hit", p |-> it.list[j]]
         exp == IF r.kind = "end" THEN [kind |-> "end"] ELSE Project(r.p, it.flags)
         props == {"C05"} \cup KindProp(it.seg) \cup GProp(e) \cup (IF it.reuse THEN {"C13"} ELSE {})
         \* a behaviour emitted by a Level-I model carries the model's own expectation: the two
@@ -279,7 +280,7 @@ AItStep(e) ==
                 THEN IF e.res = exp THEN {} ELSE props
                 ELSE IF e.res.kind = "err" \/ e.res = exp \/ e.res.kind = "end" THEN {} ELSE {"C19"})
     IN /\ e.it \in DOMAIN its
-       /\ its' = [its EXCEPT ![e.it].last = IF r.kind = "end" THEN Ended ELSE r.p.doc]
+       /\ its' = [its EXCEPT ![e.it].idx = IF j = 0 THEN Len(it.list) ELSE j]
        /\ obs' = Obs(e.ev, props, bad, exp, e.res)
        /\ UNCHANGED <<segs, files, pls, dvrs, bms, built, digs>>
 
